@@ -60,6 +60,26 @@ SIBLING_NAMES = ["../mail-old/secret", "../mail-old", "inbox/../../mail-old/secr
                  "../mail-old/new"]
 
 
+# the same with white space / control characters around the `..` (or the whole name): as written these are ordinary names inside
+# the root (a folder called ` ..`); code that tidies a name (strip) after having checked it turns them into the sibling's path
+def _ws_names():
+    out = []
+    for n in ("../mail-old/secret", "../mail-old/new", "/../mail-old/secret", "a/../../mail-old/secret"):
+        for ws in (" ", "\t", "\x0b"):
+            lead = "/" if n.startswith("/") else ""
+            body = n[len(lead):]
+            out += [lead + ws + body, lead + body + ws, lead + ws + body + ws]
+    return [n for i, n in enumerate(out) if n not in out[:i]]
+
+
+WS_NAMES = _ws_names()
+
+
+def tidied(name: str) -> str:
+    lead = "/" if name.startswith("/") else ""
+    return lead + name[len(lead):].strip()
+
+
 def escapes(name: str) -> bool:
     """Independent resolution: one leading '/' is the namespace prefix; the rest is a relative
     path under the root.  Anything that normalises to the root itself, above it, or is
@@ -173,7 +193,7 @@ def work(unit):
         # same whether or not the outside path exists (differential: the same world, the same commands, a twin name of equal
         # length whose outside components do not exist)
         tw = twin_of(name0)
-        if tw is not None and escapes_any_reading(name0.replace("{J}", "/J")) and how != "atom":
+        if tw is not None and (escapes_any_reading(name0.replace("{J}", "/J")) or escapes_any_reading(tidied(name0))) and how != "atom":
             t1, t2 = transcript_of(tmpl, name0, how), transcript_of(tmpl, tw, how)
             n_eval += len(t1) + len(t2)
             for (label, a), (_l2, b) in zip(t1, t2):
@@ -273,8 +293,11 @@ def run(tier, seed, jobs) -> Result:
             if tier == "quick" and how == "literal" and len(n.split("/")) > 2:
                 continue
             cases.append((n, how))
-    for n in ABS_NAMES + SIBLING_NAMES:
+    for n in ABS_NAMES + SIBLING_NAMES + WS_NAMES:
         for how in ("quoted", "literal"):
+            if "\t" in n or "\x0b" in n:
+                if how == "quoted" and tier == "quick":
+                    continue
             cases.append((n, how))
     units = [(tmpl, cases[i : i + 12]) for i in range(0, len(cases), 12)]
     units = seeded_order(units, seed)
